@@ -11,7 +11,7 @@
 From Coq Require Import List Arith Bool NArith.
 From FFSM2 Require Import Model.TaskList Model.BitArray Model.BitStream Model.Plan Model.Ancestors Model.Machine
   Proofs.BitArrayProofs Proofs.TaskListProofs Proofs.TaskListRun Proofs.PlanProofs Proofs.MachineFrame Proofs.MachinePlan Proofs.MachineLife Proofs.GuardProofs Proofs.CycleProofs Proofs.PlanStep
-  Proofs.SerialProofs Proofs.LogProofs Proofs.MachineTop Model.Multi Generated.InitFacts Proofs.ConstructProofs Proofs.LifeMonitor Proofs.ActivationRounds Proofs.IndexSafety Proofs.FeatureProofs Model.Script Proofs.Contract.
+  Proofs.SerialProofs Proofs.LogProofs Proofs.MachineTop Model.Multi Generated.InitFacts Proofs.ConstructProofs Proofs.LifeMonitor Proofs.ActivationRounds Proofs.IndexSafety Proofs.FeatureProofs Model.Script Proofs.Contract Proofs.Histories.
 Import ListNotations.
 
 (* every API history from construction, every behaviour of the callbacks, every n <= 255, capacity, limit, activation
@@ -162,4 +162,16 @@ Theorem C01_loads_between_instances_are_in_the_domain :
          c_manual cfg || is_onb P cfg si = true -> in_contract P cfg si (OLoad P (save P cfg (co P sj))).
 Proof. exact (load_from_in_contract). Qed.
 Print Assumptions C01_loads_between_instances_are_in_the_domain.
+
+(* what a prefix of a history produced stays in the trace: later calls only add events (so an enter() once delivered is
+   never un-delivered and the pairing argument is over one growing trace) *)
+Theorem C01_trace_only_grows :
+  forall (P : Type) (cfg : config) (orc : oracle P),
+         wf_cfg cfg ->
+         wf_oracle P cfg orc ->
+         forall (lg : bool) (pre post : list (api_op P)),
+         ops_ok P cfg orc (construct P cfg orc lg) (pre ++ post) ->
+         exists l : list (event P), tr P (run P cfg orc lg (pre ++ post)) = l ++ tr P (run P cfg orc lg pre).
+Proof. exact (trace_monotone). Qed.
+Print Assumptions C01_trace_only_grows.
 
